@@ -15,7 +15,8 @@
 (* "real" = E-q6 (round(x * 10^6)); +inf = INF, -inf = -INF, nan = NAN.          *)
 (* Input matrices are sent as integers `weight * scale` (scale = 1 for integer   *)
 (* weights, 1000 for weights k/1000) - only their zero pattern, symmetry and     *)
-(* 0/1-ness is ever read here.  n <= 12, |entries| <= 10^6: no product is formed. *)
+(* 0/1-ness is ever read here.  n <= 12 (C14 scale regime: label vectors of up to   *)
+(* 320 entries, only compared), |entries| <= 10^6: no product is formed.          *)
 EXTENDS BctGraph, BctRational
 
 (* ================================ C10 ======================================== *)
@@ -115,9 +116,22 @@ PairClass(fam, n, A) ==
 (* a community affiliation vector is a sequence of integer labels                *)
 LabelSet(c) == {c[i] : i \in DOMAIN c}
 (* exact, by co-membership                                                        *)
-SamePartition(c1, c2) ==
+SamePartitionPairwise(c1, c2) ==
   /\ DOMAIN c1 = DOMAIN c2
   /\ \A i, j \in DOMAIN c1 : (c1[i] = c1[j]) <=> (c2[i] = c2[j])
+(* the same relation without the n^2 node pairs, for the scale-regime records     *)
+(* (130..320 nodes): label1 -> label2 is a well-defined injective map iff the set *)
+(* of joint labels is as large as either label set.  MC_Relations proves it equal *)
+(* to the pairwise definition on every pair of label vectors of the model         *)
+(* (SamePartitionCharacterised, RelabelGivesSamePartition).                        *)
+SamePartitionBySets(c1, c2) ==
+  /\ DOMAIN c1 = DOMAIN c2
+  /\ LET k == Cardinality({<<c1[i], c2[i]>> : i \in DOMAIN c1})
+     IN  k = Cardinality({c1[i] : i \in DOMAIN c1}) /\ k = Cardinality({c2[i] : i \in DOMAIN c2})
+SmallVector == 12
+SamePartition(c1, c2) ==
+  IF Cardinality(DOMAIN c1) <= SmallVector THEN SamePartitionPairwise(c1, c2)
+  ELSE SamePartitionBySets(c1, c2)
 BlocksOf(c) == {{i \in DOMAIN c : c[i] = l} : l \in LabelSet(c)}
 NBlocks(c) == Cardinality(LabelSet(c))
 
